@@ -5,6 +5,7 @@ import (
 	"errors"
 	"fmt"
 	"io"
+	"runtime"
 	"runtime/metrics"
 	"sync/atomic"
 	"testing"
@@ -211,4 +212,146 @@ func TestLongResponses(t *testing.T) {
 		return c
 	}
 	vh.Check(t, "TestLongResponses", vh.N(3, 30), gen, runLong)
+}
+
+// ---- the client closes a channel while the server keeps sending to it: the reader is in the
+// middle of a packet that holds more packages than the channel's queue takes. Whatever the
+// timing, the process survives (a panic in the reader goroutine cannot be recovered by anyone).
+
+type closeMidPacketCase struct {
+	Queue     int `json:"package_queue_size"`
+	PerPacket int `json:"packages_per_packet"`
+	Packets   int `json:"packets"`
+	DelayUs   int `json:"close_after_us"`
+}
+
+func runCloseMidPacket(c closeMidPacketCase) (f *vh.Failure) {
+	defer func() {
+		if r := recover(); r != nil {
+			vh.CheckHarnessPanic(r)
+			f = vh.Failf("C10/panic-close-while-receiving", "%+v: panic: %v", c, r)
+		}
+	}()
+	ctx, cancel := context.WithCancel(context.Background())
+	defer cancel()
+	pipe := peer.NewPipe()
+	conn, done, err := tds.VerifNewConn(ctx, pipe, &tds.Info{ChannelPackageQueueSize: c.Queue, PacketReadTimeout: 1}, true)
+	if err != nil {
+		vh.HarnessBug("VerifNewConn: %v", err)
+	}
+	ch, err := conn.NewChannel()
+	if err != nil {
+		vh.HarnessBug("NewChannel: %v", err)
+	}
+	one, _, _, _ := rc.EncodeStream([]rc.P{{Done: &rc.Done{Tok: rc.TokDone, Status: rc.DoneMore | rc.DoneCount, Count: 1}}})
+	var body []byte
+	for i := 0; i < c.PerPacket; i++ {
+		body = append(body, one...)
+	}
+	for i := 0; i < c.Packets; i++ {
+		pipe.Feed(rc.Packet{Type: rc.BufResponse, Body: body}.Bytes())
+	}
+	time.Sleep(time.Duration(c.DelayUs) * time.Microsecond)
+	closed := make(chan struct{})
+	go func() {
+		defer close(closed)
+		defer func() { recover() }()
+		ch.Close()
+	}()
+	select {
+	case <-closed:
+	case <-time.After(70 * time.Second):
+		return vh.Failf("C10/hang-close-while-receiving", "%+v: Close did not return within 70 s", c)
+	}
+	// let the reader finish what it was doing with the packet
+	time.Sleep(300 * time.Microsecond)
+	cancel()
+	pipe.Close()
+	select {
+	case <-done:
+	case <-time.After(5 * time.Second):
+	}
+	vh.Label("channel-closed-while-the-reader-is-inside-a-packet")
+	vh.NonTrivial(fmt.Sprintf("%+v", c))
+	return nil
+}
+
+func TestCloseWhileServerKeepsSending(t *testing.T) {
+	gen := func(rt *rapid.T) closeMidPacketCase {
+		c := closeMidPacketCase{Queue: rapid.IntRange(0, 4).Draw(rt, "queue"), Packets: rapid.IntRange(1, 3).Draw(rt, "packets"), DelayUs: rapid.SampledFrom([]int{0, 50, 300, 1000}).Draw(rt, "delay")}
+		c.PerPacket = c.Queue + rapid.IntRange(2, 6).Draw(rt, "beyond")
+		return c
+	}
+	vh.Check(t, "TestCloseWhileServerKeepsSending", vh.N(150, 4000), gen, runCloseMidPacket)
+}
+
+// ---- broken input that nobody looks at: packets for channels that do not exist, headers with
+// impossible lengths - thousands of them while no consumer fetches the connection's errors.
+// The reader may wait for its error queue to be emptied; it must not turn every few bytes of
+// input into a goroutine or into memory that stays.
+
+type strayCase struct {
+	Count int  `json:"broken_packets"`
+	Short bool `json:"header_length_below_8"`
+}
+
+func runStrayNobodyCollects(c strayCase) (f *vh.Failure) {
+	defer func() {
+		if r := recover(); r != nil {
+			vh.CheckHarnessPanic(r)
+			f = vh.Failf("C10/panic-broken-packets", "%+v: panic: %v", c, r)
+		}
+	}()
+	ctx, cancel := context.WithCancel(context.Background())
+	pipe := peer.NewPipe()
+	g0 := runtime.NumGoroutine()
+	conn, done, err := tds.VerifNewConn(ctx, pipe, &tds.Info{ChannelPackageQueueSize: 10, PacketReadTimeout: 1}, true)
+	if err != nil {
+		vh.HarnessBug("VerifNewConn: %v", err)
+	}
+	if _, err := conn.NewChannel(); err != nil {
+		vh.HarnessBug("NewChannel: %v", err)
+	}
+	var wire []byte
+	for i := 0; i < c.Count; i++ {
+		if c.Short {
+			wire = append(wire, 4, 1, 0, byte(i%8), 0, 0, 0, 0)
+		} else {
+			wire = append(wire, rc.Packet{Type: rc.BufResponse, Channel: uint16(1000 + i%5000), Status: rc.StatEOM}.Bytes()...)
+		}
+	}
+	pipe.Feed(wire)
+	// give the reader time to do whatever it does with input nobody collects
+	deadline := time.Now().Add(300 * time.Millisecond)
+	peak := 0
+	for time.Now().Before(deadline) {
+		if g := runtime.NumGoroutine() - g0; g > peak {
+			peak = g
+		}
+		time.Sleep(2 * time.Millisecond)
+	}
+	cancel()
+	pipe.Close()
+	for i := 0; i < 2000; i++ {
+		select {
+		case <-done:
+			i = 2000
+		default:
+			conn.VerifConnErr()
+			time.Sleep(100 * time.Microsecond)
+		}
+	}
+	if peak > 50 {
+		return vh.Failf("C10/goroutines-grow-with-input", "%d broken packets (%d bytes) that nobody collects the errors of: %d goroutines more than before the connection was opened", c.Count, len(wire), peak)
+	}
+	vh.Label("broken-packets-nobody-collects")
+	vh.NonTrivial(fmt.Sprintf("%+v", c))
+	return nil
+}
+
+func TestBrokenPacketsNobodyCollects(t *testing.T) {
+	gen := func(rt *rapid.T) strayCase {
+		return strayCase{Count: rapid.SampledFrom([]int{11, 200, 3000}).Draw(rt, "count"), Short: rapid.Bool().Draw(rt, "short")}
+	}
+	vh.Check(t, "TestBrokenPacketsNobodyCollects", vh.N(6, 60), gen, runStrayNobodyCollects)
 }
